@@ -53,6 +53,11 @@ def cells(tier):
         out.append(icell(PID, 'roDelete', N=N_, T=T))
         out.append(icell(PID, 'roDelete', N=N_, T=T, gap=None, trail=0))
     out.append(icell(PID, 'roDelete', N=2, T=T, free_roid=True))
+    # timed running orders: start and last end with / without zone designator, in every combination
+    for ed, en in (('2022-03-04T12:29:45', '2022-03-04T13:00:00'), ('2022-03-04T12:29:45Z', '2022-03-04T13:00:00'),
+                   ('2022-03-04T12:29:45', '2022-03-04T13:00:00+01:00'), ('2022-03-04T12:29:45+01:00', '2022-03-04T11:00:00Z'),
+                   ('2022-03-04T12:29:45Z', None), (None, '2022-03-04T13:00:00Z')):
+        out.append(icell(PID, 'roDelete', N=2, T=T, edstart=ed, last_ended=en))
     for tw in ('same', 'blank', 'free'):
         out.append(icell(PID, 'roDelete', N=2, T=T, twice=tw))
     # (e) collections: prefix, roDelete, suffix in strict and non-strict mode; mc.completed follows the running order
